@@ -544,6 +544,9 @@ def oneorder(pid):
                     for x in expand_var(f, m.group(1), pr):
                         alts += _split_alts(x[4:-1]) if x.startswith("phi(") and x.endswith(")") else [x]
                     bad = [x for x in alts if not re.search(r"^(?:\w+::)*path::compare_names\(|^(const:)?(\w+::)*Ordering::(Less|Equal|Greater)(\(\))?$|^[<\w: ]*Ord for [ui](8|16|32|64|128|size)>::(partial_)?cmp\(", x)]
+                    # an integer comparison is fine for counts and ids - not for the lengths of the names being ordered
+                    # (a byte length is not the UTF-16 length compare_names orders by)
+                    bad += [x for x in alts if re.search(r"Ord for [ui](8|16|32|64|128|size)>::(partial_)?cmp\(", x) and re.search(r"\.name\b|(param|var):\w*name\w*", x) and "len" in x]
                     if bad:
                         res.fail(Finding(res.rule, "R-ONEORDER/%s/%s" % (f.path, re.sub(r"\(.*", "", bad[0])[:60]), "%s branches on an ordering computed by %s, not by compare_names: lookup, insertion, removal and validation must all order sibling names the same way" % (f.path.split("::")[-1], bad[0][:100]), f, t["span"]))
                     else:
